@@ -78,6 +78,12 @@ func VerifNewQM(strategy int, lens []int) *VerifQM {
 
 func (v *VerifQM) SetLen(i, n int) { *v.lens[i] = n }
 
+// Register binds one more queue (of length n) while the manager is in use.
+func (v *VerifQM) Register(n int) {
+	v.lens = append(v.lens, &n)
+	v.qm.Register(verifSizer{&n})
+}
+
 // Next returns the index of the selected queue or -1 / -2 / -3 for no items / all empty / invalid strategy.
 func (v *VerifQM) Next() (int, int, int) {
 	q, err := v.qm.next()
